@@ -187,6 +187,30 @@ class _ExprNorm(ast.NodeTransformer):
             return ast.copy_location(ast.UnaryOp(op=ast.Not(), operand=node.test), node)
         return node
 
+    def visit_Subscript(self, node):
+        self.generic_visit(node)
+        # x.rpartition(s)[2] / x.rsplit(s, 1)[-1] -> x.split(s)[-1] ; x.partition(s)[0] / x.split(s, 1)[0] -> x.split(s)[0]
+        v, sl = node.value, node.slice
+        def const(e):
+            if isinstance(e, ast.UnaryOp) and isinstance(e.op, ast.USub) and isinstance(e.operand, ast.Constant):
+                return -e.operand.value
+            return e.value if isinstance(e, ast.Constant) else None
+        if isinstance(v, ast.Call) and isinstance(v.func, ast.Attribute) and v.args and not v.keywords and isinstance(node.ctx, ast.Load):
+            meth, idx = v.func.attr, const(sl)
+            def split(i):
+                call = ast.Call(func=ast.Attribute(value=v.func.value, attr="split", ctx=ast.Load()), args=[v.args[0]], keywords=[])
+                return ast.copy_location(ast.Subscript(value=call, slice=ast.UnaryOp(op=ast.USub(), operand=ast.Constant(value=1)) if i == -1
+                                                       else ast.Constant(value=0), ctx=ast.Load()), node)
+            if meth == "rpartition" and len(v.args) == 1 and idx in (2, -1):
+                return split(-1)
+            if meth == "rsplit" and len(v.args) == 2 and const(v.args[1]) == 1 and idx in (1, -1):
+                return split(-1)
+            if meth == "partition" and len(v.args) == 1 and idx == 0:
+                return split(0)
+            if meth == "split" and len(v.args) == 2 and const(v.args[1]) == 1 and idx == 0:
+                return split(0)
+        return node
+
     def visit_Set(self, node):
         self.generic_visit(node)
         if all(isinstance(e, ast.Constant) for e in node.elts):
@@ -246,6 +270,10 @@ class _ExprNorm(ast.NodeTransformer):
         self.generic_visit(node)
         for g in node.generators:
             g.iter = self._seq(g.iter)
+        # [i for i in X] -> list(X)
+        if isinstance(node, ast.ListComp) and len(node.generators) == 1 and not node.generators[0].ifs and isinstance(node.elt, ast.Name) \
+                and isinstance(node.generators[0].target, ast.Name) and node.elt.id == node.generators[0].target.id:
+            return ast.copy_location(ast.Call(func=ast.Name(id="list", ctx=ast.Load()), args=[node.generators[0].iter], keywords=[]), node)
         # [E(r) for r in (G(x) for x in L if C) if D(r)]  ->  [E(G(x)) for x in L if C if D(G(x))]
         if len(node.generators) == 1 and isinstance(node.generators[0].iter, (ast.GeneratorExp, ast.ListComp)) \
                 and len(node.generators[0].iter.generators) == 1 and isinstance(node.generators[0].target, ast.Name):
@@ -576,7 +604,7 @@ def forward_subst(stmts: list, keep: Set[str], params: Set[str], _top=True, _cou
             mutated = any(isinstance(n, ast.Call) and isinstance(n.func, ast.Attribute) and isinstance(n.func.value, ast.Name) and n.func.value.id == name
                           and n.func.attr in ("append", "extend", "add", "update", "setdefault", "insert", "pop", "remove", "clear", "sort")
                           for t in out[idx + 1:] for n in ast.walk(t)) or \
-                any(isinstance(n, ast.Subscript) and isinstance(n.ctx, (ast.Store, ast.Del)) and isinstance(n.value, ast.Name) and n.value.id == name
+                any(isinstance(n, (ast.Subscript, ast.Attribute)) and isinstance(n.ctx, (ast.Store, ast.Del)) and isinstance(n.value, ast.Name) and n.value.id == name
                     for t in out[idx + 1:] for n in ast.walk(t))
             if mutated:
                 continue
